@@ -100,11 +100,14 @@ MulLe(a, b, c, d) ==
   IN LLe(LShift(p, 2), LAdd(LAdd(LShift(q, 2), q), LShift(ProdEps, 2)))
 \*  a*b ~ c*d  within relative 10^-8 and absolute 10^-9
 MulNear(a, b, c, d) == MulLe(a, b, c, d) /\ MulLe(c, d, a, b)
-\*  a*b*c <= d*e*f*(1+10^-8) + 10^-9
+\*  a*b*c <= d*e*f*(1+10^-8) + 10^-8
+\*  (absolute slack 10^-8: each factor is a double floored to 10^-12, and the other two factors of a triple product reach 10^3..10^4 -
+\*   a transpiration of 10^-5 mm at the very end of a season is known to 10^-12 only, i.e. to 10^-7 relative)
+ProdEps3 == <<0, 0, 0, 0, 1>>
 Mul3Le(a, b, c, d, e, f) ==
   LET p == LMul(LMul(Limbs(a), Limbs(b)), Limbs(c))
       q == LMul(LMul(Limbs(d), Limbs(e)), Limbs(f))
-      eps == LShift(ProdEps, 3)           \* unit is 10^-36 here
+      eps == LShift(ProdEps3, 3)          \* unit is 10^-36 here
   IN LLe(LShift(p, 2), LAdd(LAdd(LShift(q, 2), q), LShift(eps, 2)))
 
 (***************************************************************************)
